@@ -23,12 +23,17 @@ WORDS = ["play", "pause", "stop", "oneshot", "off", "track", "album", "auto", "a
          "2024-01-02T03:04:05Z", "9999-99-99T99:99:99Z", "2024-01-02T03:04:05+25:00", "2024-02-30T00:00:00Z", "2024-01-02T03:04:60Z",
          "+2024-01-02T03:04:05Z", "2024-01-02T03:04:05.999999999999999999999Z", "20240-01-02T03:04:05Z", "44100:16:2", "Artist", "artist",
          "MUSICBRAINZ_TRACKID", "a b", "a-b_c"]
-VALUES = NUMS + WORDS
+# long invalid values with a multi-byte character at every offset around the sizes at which an error message might be cut
+LONG = ["x" * pad + ch + "x" * 3 for pad in list(range(250, 260)) + [126, 127, 509, 510, 511, 1022, 1023] for ch in ("é", "日", "\U0001F600")] + ["é" * 300]
+VALUES = NUMS + WORDS + LONG
 STATUS_KEYS = [f for f, _, _ in t.STATUS_FIELDS] + ["Time", "update_job"]
 SONG_KEYS = ["file", "directory", "playlist", "Last-Modified", "Format", "duration", "Time", "Range", "Pos", "Id", "Prio", "Artist", "Title",
              "Album", "AlbumArtist", "Track", "Disc", "Genre", "Date", "x-custom", "MUSICBRAINZ_TRACKID"]
 TAGKEYS = ["Artist", "Album", "Title", "AlbumArtist", "Genre", "artist", "ALBUM", "x", "Foo-Bar", "songs", "file"]
-ODD_KEYS = ["x", "X_y", "a-b", "Z", "OKx", "binaryx", "Binary", "a1", "_", "-"]
+import mpdgen as _g
+# keys the protocol parser must refuse (digits, non-ASCII letters of every kind): if one gets through, Tag::try_from(..).unwrap() is next
+ODD_KEYS = ["x", "X_y", "a-b", "Z", "OKx", "binaryx", "Binary", "a1", "_", "-"] + \
+           [pre + ch + post for ch in _g.TRICKY_CHARS for pre, post in (("", ""), ("Cr", "pe"), ("Album", ""))]
 
 # command -> (params choices, plausible keys)
 COMMANDS = {
@@ -174,6 +179,12 @@ def gen(ctx):
                               ("StickerGet", [("sticker", v)]), ("AlbumArt", [("size", v)])):
             cases.append(typed_case(ident, None, wire(fields, b"x" if ident == "AlbumArt" else None)))
             dist["value-sweep"] = dist.get("value-sweep", 0) + 1
+    for k in ODD_KEYS:
+        for ident, params, fields in (("Queue", None, [("file", "a.flac"), (k, "x")]), ("ListAllIn", None, [("file", "a.flac"), (k, "x"), ("directory", "d")]),
+                                      ("List", "n:Title+n:Album", [("Album", "x"), (k, "y"), ("Title", "z")]), ("List", "n:Title", [(k, "y")]),
+                                      ("CurrentSong", None, [(k, "x"), ("file", "a")]), ("Status", None, list(GOOD["Status"]) + [(k, "1")])):
+            cases.append(typed_case(ident, params, wire(fields)))
+            dist["odd-keys"] = dist.get("odd-keys", 0) + 1
     # typed lists: Vec and tuples 1..8, N-1 / N / N+1 frames
     for _ in range(260 if not thorough else 4000):
         shape = rng.choice(["vec", "tuple", "tuple"])
